@@ -141,11 +141,11 @@ Fixpoint rkey (i : nat) (r : list (N * nat)) : option N :=
   | (k, i') :: t => if Nat.eqb i' i then Some k else rkey i t
   end.
 
-Inductive rop :=
+Inductive greg_op :=
 | RFor (w : who) (k : N)        (* Symbol.for(k): get_or_create_symbol *)
 | RFresh (w : who).             (* Symbol(): takes a counter value, does not touch the registry *)
 
-Definition rstep (s : registry) (o : rop) : registry * option (N * nat) :=
+Definition greg_step (s : registry) (o : greg_op) : registry * option (N * nat) :=
   let '(r, n) := s in
   match o with
   | RFor w k =>
@@ -156,11 +156,11 @@ Definition rstep (s : registry) (o : rop) : registry * option (N * nat) :=
   | RFresh _ => ((r, S n), None)
   end.
 
-Fixpoint rrun (s : registry) (h : list rop) : registry * list (N * nat) :=
+Fixpoint greg_run (s : registry) (h : list greg_op) : registry * list (N * nat) :=
   match h with
   | [] => (s, [])
-  | o :: t => let '(s1, a) := rstep s o in
-              let '(s2, res) := rrun s1 t in
+  | o :: t => let '(s1, a) := greg_step s o in
+              let '(s2, res) := greg_run s1 t in
               (s2, match a with Some x => x :: res | None => res end)
   end.
 
@@ -178,9 +178,9 @@ Proof.
   destruct (N.eqb_spec k' k); [discriminate|]. intros [Hc|Hc]; [congruence|now apply IH].
 Qed.
 
-Lemma rstep_inv : forall s o, rinv s ->
-  rinv (fst (rstep s o)) /\ incl (fst s) (fst (fst (rstep s o))) /\
-  (forall x, snd (rstep s o) = Some x -> In x (fst (fst (rstep s o)))).
+Lemma greg_step_inv : forall s o, rinv s ->
+  rinv (fst (greg_step s o)) /\ incl (fst s) (fst (fst (greg_step s o))) /\
+  (forall x, snd (greg_step s o) = Some x -> In x (fst (fst (greg_step s o)))).
 Proof.
   intros [r n] o (H1 & H2 & H3). destruct o as [w k|w]; simpl.
   - destruct (rfind k r) as [i|] eqn:E; simpl.
@@ -197,13 +197,13 @@ Proof.
     simpl. eapply Forall_impl; [|exact H3]. intros; simpl in *; lia.
 Qed.
 
-Lemma rrun_inv : forall h s, rinv s ->
-  rinv (fst (rrun s h)) /\ incl (fst s) (fst (fst (rrun s h))) /\ incl (snd (rrun s h)) (fst (fst (rrun s h))).
+Lemma greg_run_inv : forall h s, rinv s ->
+  rinv (fst (greg_run s h)) /\ incl (fst s) (fst (fst (greg_run s h))) /\ incl (snd (greg_run s h)) (fst (fst (greg_run s h))).
 Proof.
   induction h as [|o t IH]; intros s H; simpl.
   - split; [exact H|]. split; [apply incl_refl|]. intros x Hx. destruct Hx.
-  - destruct (rstep_inv s o H) as (I1 & I2 & I3). destruct (rstep s o) as [s1 a]. simpl in *.
-    destruct (IH s1 I1) as (J1 & J2 & J3). destruct (rrun s1 t) as [s2 res]. simpl in *.
+  - destruct (greg_step_inv s o H) as (I1 & I2 & I3). destruct (greg_step s o) as [s1 a]. simpl in *.
+    destruct (IH s1 I1) as (J1 & J2 & J3). destruct (greg_run s1 t) as [s2 res]. simpl in *.
     split; [exact J1|]. split.
     + eapply incl_tran; eauto.
     + destruct a as [x|]; [|exact J3]. intros y Hy. destruct Hy as [Hy|Hy]; [subst y; apply J2; apply I3; reflexivity|apply J3; exact Hy].
@@ -231,9 +231,9 @@ Qed.
 (* our Symbol.for results: identities are equal exactly when the keys are equal - for every history, whoever else uses
    the registry or the counter, from whatever (well-formed) registry state we start *)
 Lemma registry_identity_lemma : forall h s, rinv s ->
-  forall k1 i1 k2 i2, In (k1, i1) (snd (rrun s h)) -> In (k2, i2) (snd (rrun s h)) -> (i1 = i2 <-> k1 = k2).
+  forall k1 i1 k2 i2, In (k1, i1) (snd (greg_run s h)) -> In (k2, i2) (snd (greg_run s h)) -> (i1 = i2 <-> k1 = k2).
 Proof.
-  intros h s H k1 i1 k2 i2 A B. destruct (rrun_inv h s H) as ((N1 & N2 & _) & _ & J).
+  intros h s H k1 i1 k2 i2 A B. destruct (greg_run_inv h s H) as ((N1 & N2 & _) & _ & J).
   apply J in A. apply J in B. split; intro; subst.
   - eapply nodup_snd_fun; eauto.
   - eapply nodup_fst_fun; eauto.
@@ -249,7 +249,7 @@ Qed.
 
 (* Symbol.keyFor inverts Symbol.for at any later time *)
 Lemma registry_keyfor_lemma : forall h s, rinv s ->
-  forall k i, In (k, i) (snd (rrun s h)) -> rkey i (fst (fst (rrun s h))) = Some k.
+  forall k i, In (k, i) (snd (greg_run s h)) -> rkey i (fst (fst (greg_run s h))) = Some k.
 Proof.
-  intros h s H k i A. destruct (rrun_inv h s H) as ((N1 & N2 & _) & _ & J). apply rkey_in; auto.
+  intros h s H k i A. destruct (greg_run_inv h s H) as ((N1 & N2 & _) & _ & J). apply rkey_in; auto.
 Qed.
